@@ -54,7 +54,9 @@ theorem fstep_links (v : Pairing) (ca cb : Cfg) (f f' : Fwd) (l : FLabel) (h : f
             simp only [hs, Option.map_some, Option.some.injEq] at h; subst h
             exact ⟨hA, Or.inr ⟨_, hs⟩⟩
         all_goals (obtain rfl := Option.some.inj h; exact ⟨hA, Or.inl rfl⟩)
-      · simp at h
+      · split at h
+        · obtain rfl := Option.some.inj h; exact ⟨Or.inl rfl, Or.inl rfl⟩
+        · simp at h
     · simp at h
   | recvChunk =>
     simp only [fstep] at h
